@@ -36,11 +36,18 @@ type GenCfg struct {
 
 var allKinds = []string{"string", "int", "float", "bool", "time", "struct", "slice", "ptr", "custom", "pre"}
 
+// Tier is set by the driver ("quick" | "thorough"); the thorough tier widens the bounds.
+var Tier = "quick"
+
 func DrawGenCfg(r *Rng, mode string) GenCfg {
+	d, f, e := 3, 4, 3
+	if Tier == "thorough" {
+		d, f, e = 4, 6, 4
+	}
 	c := GenCfg{
-		MaxDepth:  1 + r.Intn(3),
-		MaxFields: 1 + r.Intn(4),
-		MaxElems:  1 + r.Intn(3),
+		MaxDepth:  1 + r.Intn(d),
+		MaxFields: 1 + r.Intn(f),
+		MaxElems:  1 + r.Intn(e),
 		PReq:      Pick(r, []float64{0.2, 0.5, 0.8}),
 		PDef:      Pick(r, []float64{0, 0.15, 0.4}),
 		PCatch:    Pick(r, []float64{0, 0.15, 0.4}),
@@ -254,6 +261,54 @@ func GenNode(r *Rng, c *GenCfg, depth int, root bool) *Node {
 	return genKind(r, c, kind, depth)
 }
 
+// DeepChain builds a narrow schema whose paths have `segments` segments or more
+// (structs in slices in structs ...), with 1-2 failing-prone leaves per level.
+func DeepChain(r *Rng, c *GenCfg, segments int) *Node {
+	leaf := func() *Node {
+		k := Pick(r, []string{"string", "int", "bool"})
+		cc := *c
+		cc.PCatch = 0
+		n := genKind(r, &cc, k, 99)
+		n.Req = true
+		n.Def = nil
+		return n
+	}
+	var build func(left int) *Node
+	build = func(left int) *Node {
+		s := &Node{Kind: "struct"}
+		used := map[string]bool{}
+		add := func(n *Node) {
+			for {
+				k := Pick(r, keyVocab)
+				if !used[GoName(k)] {
+					used[GoName(k)] = true
+					s.Fields = append(s.Fields, &Field{Key: k, N: n})
+					return
+				}
+			}
+		}
+		add(leaf())
+		if left > 1 {
+			if r.P(0.4) && left > 2 {
+				add(&Node{Kind: "slice", Req: r.P(0.5), Elem: build(left - 2)})
+			} else {
+				add(build(left - 1))
+			}
+			if r.P(0.5) {
+				add(leaf())
+			}
+			if r.P(0.3) && left > 1 {
+				add(build(left - 1))
+			}
+		}
+		if r.P(c.StructTests) {
+			genTests(r, c, s)
+		}
+		return s
+	}
+	return build(segments)
+}
+
 func genKind(r *Rng, c *GenCfg, kind string, depth int) *Node {
 	n := &Node{Kind: kind}
 	switch kind {
@@ -295,9 +350,6 @@ func genKind(r *Rng, c *GenCfg, kind string, depth int) *Node {
 	case "slice":
 		n.Req = r.P(c.PReq)
 		n.Elem = GenNode(r, c, depth+1, false)
-		if n.Elem.Kind == "pre" {
-			n.Elem = genKind(r, c, "string", depth+1)
-		}
 		if r.P(c.PDef) && n.Elem.IsPrim() {
 			l := VL()
 			for i := 0; i < 1+r.Intn(c.MaxElems); i++ {
@@ -310,6 +362,9 @@ func genKind(r *Rng, c *GenCfg, kind string, depth int) *Node {
 	case "ptr":
 		n.Req = r.P(c.PReq)
 		ik := Pick(r, []string{"string", "int", "struct", "slice", "bool"})
+		if c.has("pre") && r.P(0.15) {
+			ik = "pre"
+		}
 		if depth >= c.MaxDepth && (ik == "struct" || ik == "slice") {
 			ik = "string"
 		}
@@ -330,7 +385,8 @@ func genKind(r *Rng, c *GenCfg, kind string, depth int) *Node {
 // ---------------------------------------------------------------------------
 // Inputs
 
-var absentForms = []Val{VNil(), VS(""), VS(" "), VS("\t\n ")}
+// strings that are empty after trimming whitespace (strings.TrimSpace trims Unicode White_Space, not only ASCII)
+var absentForms = []Val{VNil(), VS(""), VS(" "), VS("\t\n "), VS("\u00a0"), VS("\u3000 "), VS("\t\u2003\u0085"), VS("\v\f\r")}
 
 // GenParseInput draws a logical record for node n (keyed by schema keys).
 // missing=true means "leave the key out".
